@@ -6,6 +6,7 @@ CONSTANTS
   FrameCopy = TRUE
   DetailsFirst = FALSE
   TreeRule = "none"
+  BoxCache = "none"
   MaxCalls = 4
   MaxMoves = 1
   Witness = FALSE
